@@ -755,5 +755,6 @@ RULES = [
     ("C02.qs", rule_qs),
     ("C02.nest", lambda c, r: pat.shared(__import__("sa.rules.c01", fromlist=["x"]).rule_rlock, "C02.nest", lambda x: "every-path" in x["instance"] or "nested-increment" in x["instance"] or x["status"] != "pass")(c, r)),   # a reader `leaves` only if its last unlock is recognised as outermost: every unlock takes one level off
     ("C02.nest", lambda c, r: pat.shared(__import__("sa.rules.c01", fromlist=["x"]).rule_runlock, "C02.nest", lambda x: "every-path" in x["instance"] or x["status"] != "pass")(c, r)),
+    ("C02.helper-offline", lambda c, r: pat.shared(__import__("sa.rules.c03", fromlist=["x"]).rule_offline, "C02.helper-offline", lambda x: "qsbr.sleep" in x["instance"] or x["status"] != "pass")(c, r)),   # a call_rcu helper is a registered qsbr reader: while it sleeps / polls online no grace period completes
 ]
 FLOORS = {}
